@@ -856,6 +856,10 @@ func c02Replay(c *Ctx, raw stdjson.RawMessage) {
 	if stdjson.Unmarshal(raw, &k) != nil {
 		return
 	}
+	if k.Setting == "ptrptr" {
+		c02PtrPtr(c)
+		return
+	}
 	if k.Scen != nil {
 		c01Scenario(c, k.Scen)
 		return
@@ -863,6 +867,57 @@ func c02Replay(c *Ctx, raw stdjson.RawMessage) {
 	c02Decode(c, k, jTypeOf(k.Shape), k.Docs, k.Setting)
 }
 
+// c02PtrPtr: null (and values) decoded into targets that hold non-nil pointers to pointers - JsonTypes generates one
+// level of pointers only.  Open finding F-C02-11: on null the package clears the inner pointer, encoding/json the
+// first settable one; exactly that shape of difference carries the finding's id, any other is a violation.
+func c02PtrPtr(c *Ctx) {
+	type S struct {
+		O **int
+		P ***string
+	}
+	mk := func() []any {
+		i1, i2 := 1, 2
+		p1, p2 := &i1, &i2
+		pp2 := &p2
+		ppp := &pp2
+		s := "s"
+		ps := &s
+		pps := &ps
+		return []any{&S{O: &p1, P: &pps}, ppp, &[]**int{&p1}, &map[string]**int{"k": &p1}, &S{}}
+	}
+	docs := [][]string{
+		{`{"o":0,"o":null}`, `{"O":null}`, `{"O":5,"P":"x"}`, `{"P":null}`, `null`},
+		{`null`, `7`},
+		{`[null]`, `[3]`, `null`},
+		{`{"k":null}`, `{"k":4}`},
+		{`{"O":null,"P":null}`, `{"O":1}`},
+	}
+	for ti := range docs {
+		for _, doc := range docs[ti] {
+			a, b := mk()[ti], mk()[ti]
+			k := jsonCase{Setting: "ptrptr", Doc: doc, VI: ti}
+			e1 := stdjson.Unmarshal([]byte(doc), a)
+			var e2 error
+			c.Case()
+			c.Eval(1)
+			if p := protect(func() { e2 = json.Unmarshal([]byte(doc), b) }); p != "" {
+				c.Diverge("C02", "json.Unmarshal(pointers to pointers)", errStr(e1), p, "", k)
+				continue
+			}
+			wa, _ := stdjson.Marshal(a)
+			wb, _ := stdjson.Marshal(b)
+			if (e1 == nil) != (e2 == nil) || (e1 == nil && (string(wa) != string(wb) || !deepEq(reflect.ValueOf(a).Elem(), reflect.ValueOf(b).Elem()))) {
+				finding := ""
+				if e1 == nil && e2 == nil && string(wa) == string(wb) && strings.Contains(doc, "null") {
+					finding = "F-C02-11" // same JSON view (null either way): only which pointer of the chain is nil differs
+				}
+				c.Diverge("C02", "json.Unmarshal(pointers to pointers)", fmt.Sprintf("%s err=%v %s", wa, e1, showVal(reflect.ValueOf(a).Elem())),
+					fmt.Sprintf("%s err=%v %s", wb, e2, showVal(reflect.ValueOf(b).Elem())), finding, k)
+			}
+		}
+	}
+}
+
 func init() {
-	register("C02", &Driver{Vector: c02Vector, Replay: c02Replay})
+	register("C02", &Driver{Vector: c02Vector, Replay: c02Replay, Extra: c02PtrPtr})
 }
